@@ -40,10 +40,10 @@ def hooks(exclude=()):
     h = {}
     for n in PREDS:
         if n not in exclude:
-            h["DateRoll::" + n] = (lambda n: lambda ev, vals, e: P(n, *vals))(n)
+            h["DateRoll::" + n] = h["DateRoll>::" + n] = (lambda n: lambda ev, vals, e: P(n, *vals))(n)
     for n in ROLLS:
         if n not in exclude:
-            h["DateRoll::" + n] = (lambda n: lambda ev, vals, e: R(n, *vals))(n)
+            h["DateRoll::" + n] = h["DateRoll>::" + n] = (lambda n: lambda ev, vals, e: R(n, *vals))(n)
     for n in ("roll_with_settlement", "roll_without_settlement", "get_roll", "get_imm", "get_roll_by_day"):
         if n not in exclude:
             h["calendars::dateroll::" + n] = (lambda n: lambda ev, vals, e: R(n, *vals))(n)
